@@ -149,6 +149,13 @@ func String(max int) string {
 	return string(b)
 }
 
+// StringN returns an arbitrary string of exactly n bytes.
+func StringN(n int) string {
+	v := next("string")
+	b, _ := hex.DecodeString(v.Hex)
+	return string(b)
+}
+
 func Assume(b bool) {
 	if !b {
 		panic(AssumeFailed{"assume violated by replay assignment"})
@@ -214,4 +221,44 @@ func ClockAlign() {
 	start := time.Now().UnixMilli()
 	for time.Now().UnixMilli() == start {
 	}
+}
+
+// ---- JSON inspection (symbolic runs: the recording model of encoding/json) ----
+
+func jsonField(b []byte, key string) (json.RawMessage, bool) {
+	var m map[string]json.RawMessage
+	if json.Unmarshal(b, &m) != nil {
+		return nil, false
+	}
+	v, ok := m[key]
+	return v, ok
+}
+
+func JSONHas(b []byte, key string) bool { _, ok := jsonField(b, key); return ok }
+
+func JSONInt(b []byte, key string) int64 {
+	v, ok := jsonField(b, key)
+	var n int64
+	if !ok || json.Unmarshal(v, &n) != nil {
+		return 0x7fffffffffffff01
+	}
+	return n
+}
+
+func JSONString(b []byte, key string) string {
+	v, ok := jsonField(b, key)
+	var s string
+	if !ok || json.Unmarshal(v, &s) != nil {
+		return "\x00<no such json string>"
+	}
+	return s
+}
+
+func JSONStrings(b []byte, key string) []string {
+	v, ok := jsonField(b, key)
+	var s []string
+	if !ok || json.Unmarshal(v, &s) != nil {
+		return nil
+	}
+	return s
 }
